@@ -188,7 +188,7 @@ func checkC01(r *report.Report, tier string, seed int64) error {
 	opt := gen.DefaultOptions()
 	opt.CrossConv = 0.3
 	opt.Embedding = 0.1
-	opt.UnreturnedErr = 0.04
+	opt.UnreturnedErr = 0.08
 	r.Rule = "generated setup packages over the type alphabet of harness/gen (basic, named, pointer, slice, array, map, chan, func, interface, error, struct: local, imported with unexported members, anonymous, embedded, nested) x relation classes x toggles x explicit notations x styles/receiver/reverse/arguments x hooks; on every exit-0 run the package is type-checked with `go vet` under the ordinary build (setup file excluded by its tag, output included) and the output checked with gofmt -l; non-trivial = exit 0 with at least one assignment emitted; distinct by file contents"
 	return pipelineCheck(r, "C01", seed, n, opt, nil,
 		func(cr *caseRun) bool { return cr.Impl.Status == 0 && strings.Contains(cr.Impl.Output, " = ") }, c01Oracle)
